@@ -54,6 +54,14 @@ LEVEL_TEXT.update({
     "C12": "Bounded model checking of the acceptor kernel: numbers never decrease; a proposal is accepted only above both numbers, with no outstanding commit, no online leader, and no newer log at this member or any known member; a commit only for the accepted number and once; two overlapping candidacies never both get this acceptor's commit (all 5-delivery sequences); CompareAofId antisymmetric. Recorded finding: accepted commits are not persisted across a restart.",
 })
 
+LEVEL_TEXT.update({
+    "C18": "Bounded model checking of the disconnect kernel: wills run only at Close, exactly once, in registration order (observable through an exclusive key), a second Close changes nothing, the connection's holds stay, its queued request ends by timeout without leaking counters, and a reply for a closed client goes to the client with the same client id or nowhere (symbolic ids).",
+})
+
+LEVEL_TEXT.update({
+    "C19": "Bounded model checking of the composition 'client primitive builds the command' o 'server admits it': Lock exclusive, RLock re-entrant for its holder only with as many unlocks as locks, Semaphore(n)/MaxConcurrentFlow(n) admit exactly n (symbolic n), RWLock one writer or many readers.",
+})
+
 LEVEL_NOTE = {
     "C01": "Trusted: the symgo executor (validated per run by native replay of sampled path witnesses), z3. Schedules: single-threaded critical sections only (no interleaving of two requests inside LockDB.Lock is explored); time values drawn from classes {0,3}/{0,4}; millisecond flags and aof-timing flags fixed in these harnesses.",
     "C02": "Trusted: symgo (validated by native replay of sampled witnesses), z3. Single-threaded critical sections; holder list shapes <=3 (inline queue only); show/update flags excluded here (C06).",
@@ -69,6 +77,8 @@ LEVEL_NOTE = {
     "C10": "Kernel only: Server.checkProtocol/handle choosing the forwarding wrapper, the TCP connection to the leader, the relay of frames by Transparency*ServerProtocol and the text-protocol relay are outside this check (no sockets in the executor).",
     "C11": "Reading of 'written to the leader's own log': handed to the log by Aof.PushLock; in majority mode with two followers their two acknowledgements complete the lock before the leader's flush report (reach tag succed-before-flush-report) — counted as satisfying the configured number. Value operations with rollback, demotion (SwitchToFollower/FlushDB) and grants from the wait queue are outside this harness.",
     "C12": "Kernel only: the remote handlers (same rules behind protobuf decoding), ArbiterVoter.DoVote's candidate choice and majority counting over goroutines, 3..5-process clusters and the kill -9 experiment are outside this check.",
+    "C18": "Kernel only: binary protocol; the text protocol's Close and lockWaiter hand-off, re-entrant Close from inside a will's reply, and how the OS reports a closed socket are outside.",
+    "C19": "Kernel only: TCP transport, request/response matching, reconnects, forwarding through a follower, concurrency of goroutines, PriorityLock hand-over and Event.Wait are outside this check.",
     "C13": "Trusted: symgo, z3. Frames <= 8 bytes; paths that would allocate more than 300 distinct sizes are cut (listed as unsupported in the evidence); text handlers, CALL and the 64-byte header parser are covered by separate harnesses where registered.",
     "C14": "Trusted: symgo, z3. crypto/md5 is an uninterpreted function.",
     "C20": "Trusted: symgo. Programs longer than the bound and constructor parameters above 3 are outside the claim.",
